@@ -29,6 +29,7 @@ EXPLANATION = (
     " (R10) the polars container fills defaults only for columns the frame has (non-regex); (R11) polars check_nullable asks is_not_null on every path (is_not_nan alone answers null for a null cell, which aggregations skip). " 
     "NOT decided: equality of failing cells and parsed outputs on data; numeric/regex "
     "dialect differences between python re/numpy and rust."
+    ' (R12) the NaN part of the polars nullable check is conditional on the dtype of the data only, never on the declared dtype; (R13) a built-in check statistic whose declared type admits str reaches a polars method that reads str as a column name (is_between, clip, ...) only as a value (pl.lit).'
 )
 LEVEL_RULE = "one obligation per (check, option assignment, backend) / signature / twin effect site"
 FLOORS = {"R1": 40, "R2": 1, "R3": 40, "R4": 10, "R5": 4, "R6": 2, "R7": 1, "R8": 2, "R9": 2, "R10": 1, "R11": 1}
@@ -679,6 +680,76 @@ def r11_polars_nullable_counts_nulls(ctx):
                f0.loc(c))
 
 
+# polars expression methods that read a python `str` argument as a *column name* (polars: parse_into_expression without
+# str_as_lit); comparison operators / eq, ne, gt, ge, lt, le / is_in / the str namespace read it as a literal
+STR_IS_A_COLUMN = {"is_between", "clip", "over", "sort_by", "dot"}
+
+
+def r12_polars_nan_test_follows_the_data(ctx):
+    """pandas asks the *data* whether it has missing values (`hasnans` sees NaN in any float data).  The polars nullable
+    check counts NaN as missing for floating data; whether that part applies may therefore depend on the data's dtype
+    only - conditioning it on the *declared* dtype as well makes `Column(nullable=False)` without a dtype (or with a
+    non-float dtype and no coercion) accept NaN that pandas rejects."""
+    ix = ctx.ix
+    m = ix.module("pandera/backends/polars/components.py")
+    cb = m.classes.get("ColumnBackend")
+    f0 = cb.lookup("check_nullable") if cb is not None else None
+    if f0 is None:
+        raise AnalysisError("polars ColumnBackend.check_nullable missing")
+    f = expanded(ix, f0)
+    cfg = cfg_of(f.node)
+    from ..util import bool_atoms, enclosing_stmt, ifexp_guards
+    n = 0
+    for c in calls_in(f.node):
+        if callee_last(c) not in ("is_not_nan", "is_nan"):
+            continue
+        n += 1
+        st = enclosing_stmt(c)
+        node = cfg.node_of(st)
+        atoms = {}
+        for t, pol in list(cfg.guards(node.id) if node is not None else []) + list(ifexp_guards(c, st)):
+            atoms.update(bool_atoms(t))
+        declared = [a for a, an in atoms.items() if any(isinstance(x, ast.Attribute) and x.attr == "dtype" and isinstance(x.value, ast.Name) and x.value.id != f0.positional[1]
+                                                          for x in ast.walk(an))]
+        ctx.ob("R12", f0, "polars check_nullable: the NaN part depends on the dtype of the data only", not declared,
+               f"conditions: {sorted(atoms)}" if not declared else
+               f"`{txt(c)[:40]}` applies only when `{declared[0][:70]}` holds - a test of the declared dtype: Column(nullable=False) without a dtype over float data with NaN "
+               "passes on polars and fails on pandas", f0.loc(c))
+    if n < 1:
+        raise AnalysisError("polars check_nullable: NaN test not found")
+
+
+def r13_polars_statistics_are_literals(ctx):
+    """A built-in check compares the data with the *values* the user gave.  Some polars expression methods read a python
+    str argument as a column name (`is_between("a", "f")` compares with columns a and f): a statistic whose declared type
+    admits str reaches such a method only through `pl.lit(...)` - otherwise Check.in_range("a", "f") on a str column raises
+    ColumnNotFoundError, or silently compares against same-named columns, where pandas compares with the strings."""
+    ix = ctx.ix
+    m = ix.module("pandera/backends/polars/builtin_checks.py")
+    n = 0
+    for name, f in m.functions.items():
+        args = f.node.args
+        stats = {}
+        for a in args.args[1:] + args.kwonlyargs:
+            ann = txt(a.annotation) if a.annotation is not None else "Any"
+            stats[a.arg] = ann
+        if not stats:
+            continue
+        for c in calls_in(f.node):
+            if callee_last(c) not in STR_IS_A_COLUMN or not isinstance(c.func, ast.Attribute):
+                continue
+            for a in list(c.args) + [k.value for k in c.keywords]:
+                if isinstance(a, ast.Name) and a.id in stats:
+                    n += 1
+                    ann = stats[a.id]
+                    admits_str = not any(t in ann for t in ("int", "float", "bool")) or "str" in ann or "Any" in ann
+                    ctx.ob("R13", f, f"polars {name}: `{a.id}` reaches `{callee_last(c)}` as a value", not admits_str,
+                           f"`{a.id}: {ann}` cannot be a str" if not admits_str else
+                           f"`{txt(c)[:60]}` reads a str `{a.id}` as a column name: Check.{name}('a', 'f') on a str column raises ColumnNotFoundError (or compares against columns a / f) "
+                           "on polars and compares with the strings on pandas", f.loc(c))
+    ctx.stats["polars_column_parsing_method_args"] = n
+
+
 def r1_pyspark(ctx):
     """thorough: pyspark forms where expressible (best effort, never a VIOLATION source on unknown forms)."""
     ix = ctx.ix
@@ -713,6 +784,8 @@ def run(ctx):
     r9_polars_default_is_literal(ctx)
     r10_polars_defaults_skip_absent_columns(ctx)
     r11_polars_nullable_counts_nulls(ctx)
+    r12_polars_nan_test_follows_the_data(ctx)
+    r13_polars_statistics_are_literals(ctx)
     if ctx.tier == "thorough":
         r1_pyspark(ctx)
     ctx.assume("pandas operators/str accessors and polars expression methods have their documented element-wise meaning")
